@@ -36,8 +36,13 @@ pub fn occurrences(seq: &[u32]) -> Vec<u32> {
 }
 
 /// run hash_set on an existing instance and decode the H4 snapshot
-pub fn run_on(h: &mut ProbOrdMinHash2<FnvHasher>, m: usize, l: usize, seq: &[u32]) -> Result<Run, String> {
+pub fn run_on<H: std::hash::Hasher + Default>(h: &mut ProbOrdMinHash2<H>, m: usize, l: usize, seq: &[u32]) -> Result<Run, String> {
     let sig = h.hash_set(seq);
+    decode(h, sig, m, l, seq)
+}
+
+/// decode the H4 snapshot of the last hash_set call; `seq` are the symbols as the harness names them
+pub fn decode<H: std::hash::Hasher + Default>(h: &ProbOrdMinHash2<H>, sig: Vec<u64>, m: usize, l: usize, seq: &[u32]) -> Result<Run, String> {
     let (idx, vals) = h.verif_selected();
     if sig.len() != m || idx.len() != m * l || vals.len() != m * l {
         return Err(format!("unexpected sizes: sig {} idx {} vals {}", sig.len(), idx.len(), vals.len()));
@@ -71,31 +76,69 @@ pub fn run_on(h: &mut ProbOrdMinHash2<FnvHasher>, m: usize, l: usize, seq: &[u32
     Ok(Run { sig, selected, spelled, races })
 }
 
-pub fn fresh(m: usize, l: usize) -> ProbOrdMinHash2<FnvHasher> {
-    let mut h = ProbOrdMinHash2::<FnvHasher>::new(m as u32, l);
+pub fn fresh_h<H: std::hash::Hasher + Default>(m: usize, l: usize) -> ProbOrdMinHash2<H> {
+    let mut h = ProbOrdMinHash2::<H>::new(m as u32, l);
     h.verif_set_seed(FIXED_SEED);
     h
 }
 
-pub fn run_fresh(m: usize, l: usize, seq: &[u32]) -> Result<Run, String> {
-    let seq = seq.to_vec();
+pub fn fresh(m: usize, l: usize) -> ProbOrdMinHash2<FnvHasher> {
+    fresh_h::<FnvHasher>(m, l)
+}
+
+/// element symbols are encoded before hashing: identity for Fnv; for the no-op hasher (which byte-swaps 4-byte items on
+/// little-endian machines) the encoding makes the hashes of the symbols the adjacent integers 1, 2, 3, ...
+pub trait Enc: std::hash::Hasher + Default {
+    fn enc(e: u32) -> u32;
+    fn label() -> &'static str;
+}
+impl Enc for FnvHasher {
+    fn enc(e: u32) -> u32 {
+        e
+    }
+    fn label() -> &'static str {
+        "Fnv"
+    }
+}
+impl Enc for probminhash::nohasher::NoHashHasher {
+    fn enc(e: u32) -> u32 {
+        (e + 1).swap_bytes()
+    }
+    fn label() -> &'static str {
+        "NoHash(adjacent hashes)"
+    }
+}
+
+pub fn run_fresh_h<H: Enc>(m: usize, l: usize, seq: &[u32]) -> Result<Run, String> {
+    let enc: Vec<u32> = seq.iter().map(|e| H::enc(*e)).collect();
+    let plain = seq.to_vec();
     match guarded_mut(move || {
-        let mut h = fresh(m, l);
-        run_on(&mut h, m, l, &seq)
+        let mut h = fresh_h::<H>(m, l);
+        // run on the encoded items, decode the snapshot with the plain symbols
+        let sig = h.hash_set(&enc);
+        decode(&h, sig, m, l, &plain)
     }) {
         Ok(r) => r,
         Err(p) => Err(format!("panic: {}", p)),
     }
 }
 
+pub fn run_fresh(m: usize, l: usize, seq: &[u32]) -> Result<Run, String> {
+    run_fresh_h::<FnvHasher>(m, l, seq)
+}
+
 /// race table of every (element, occurrence<=maxocc): value (bits) at each position, taken from the real code:
 /// the run [e; c] on an instance with l = c keeps every pair at every position
 pub fn race_tables(m: usize, elements: &[u32], maxocc: usize) -> Result<BTreeMap<Pair, Vec<f64>>, String> {
+    race_tables_h::<FnvHasher>(m, elements, maxocc)
+}
+
+pub fn race_tables_h<H: Enc>(m: usize, elements: &[u32], maxocc: usize) -> Result<BTreeMap<Pair, Vec<f64>>, String> {
     let mut out = BTreeMap::new();
     for &e in elements {
         let c = maxocc;
         let seq = vec![e; c];
-        let r = run_fresh(m, c, &seq)?;
+        let r = run_fresh_h::<H>(m, c, &seq)?;
         for k in 0..m {
             for (pair, bits) in &r.races[k] {
                 out.entry(*pair).or_insert_with(|| vec![f64::NAN; m])[k] = f64::from_bits(*bits);
@@ -146,18 +189,18 @@ struct Finding {
 }
 
 /// all checks for one (alphabet, length, m, l)
-fn check_config(alpha: u32, len: usize, m: usize, l: usize, history_pool: &[Vec<u32>], st: &mut Stats) -> Vec<Finding> {
+fn check_config<H: Enc>(alpha: u32, len: usize, m: usize, l: usize, history_pool: &[Vec<u32>], st: &mut Stats) -> Vec<Finding> {
     let mut findings: Vec<Finding> = Vec::new();
     let seqs = all_sequences(alpha, len);
     let elements: Vec<u32> = (0..alpha).collect();
-    let tables = match race_tables(m, &elements, len.max(1)) {
+    let tables = match race_tables_h::<H>(m, &elements, len.max(1)) {
         Ok(t) => t,
         Err(e) => {
             findings.push(Finding { key: "race-table".into(), what: format!("m={} cannot extract race tables: {}", m, e), case: json!({"kind": "tables", "m": m, "len": len, "alpha": alpha}) });
             return findings;
         }
     };
-    let runs: Vec<(Vec<u32>, Result<Run, String>)> = seqs.par_iter().map(|s| (s.clone(), run_fresh(m, l, s))).collect();
+    let runs: Vec<(Vec<u32>, Result<Run, String>)> = seqs.par_iter().map(|s| (s.clone(), run_fresh_h::<H>(m, l, s))).collect();
     st.calls += runs.len() as u64;
     st.sequences += runs.len() as u64;
     let mut groups: BTreeMap<Vec<u32>, Vec<usize>> = BTreeMap::new();
@@ -167,7 +210,7 @@ fn check_config(alpha: u32, len: usize, m: usize, l: usize, history_pool: &[Vec<
         groups.entry(key).or_default().push(i);
     }
     st.groups += groups.len() as u64;
-    let case_of = |s: &[u32], t: &[u32]| json!({"kind": "pair", "m": m, "l": l, "seq1": s, "seq2": t});
+    let case_of = |s: &[u32], t: &[u32]| json!({"kind": "pair", "hasher": H::label(), "m": m, "l": l, "seq1": s, "seq2": t});
     // tuple -> signature value must be a function, and injective
     let mut tuple_to_val: HashMap<Vec<u32>, u64> = HashMap::new();
     let mut val_to_tuple: HashMap<u64, Vec<u32>> = HashMap::new();
@@ -293,7 +336,7 @@ fn check_config(alpha: u32, len: usize, m: usize, l: usize, history_pool: &[Vec<
     let hres: Vec<Option<Finding>> = targets
         .par_iter()
         .map(|t| {
-            let base = match run_fresh(m, l, t) {
+            let base = match run_fresh_h::<H>(m, l, t) {
                 Ok(r) => r,
                 Err(_) => return None,
             };
@@ -301,11 +344,14 @@ fn check_config(alpha: u32, len: usize, m: usize, l: usize, history_pool: &[Vec<
                 let tt = (*t).clone();
                 let hl2: Vec<Vec<u32>> = hl.iter().map(|x| (*x).clone()).collect();
                 let r = guarded_mut(move || {
-                    let mut h = fresh(m, l);
+                    let mut h = fresh_h::<H>(m, l);
                     for x in &hl2 {
-                        let _ = h.hash_set(x);
+                        let ex: Vec<u32> = x.iter().map(|e| H::enc(*e)).collect();
+                        let _ = h.hash_set(&ex);
                     }
-                    run_on(&mut h, m, l, &tt)
+                    let et: Vec<u32> = tt.iter().map(|e| H::enc(*e)).collect();
+                    let sig = h.hash_set(&et);
+                    decode(&h, sig, m, l, &tt)
                 });
                 let bad = match r {
                     Ok(Ok(r)) => r.sig != base.sig || r.selected != base.selected,
@@ -315,7 +361,7 @@ fn check_config(alpha: u32, len: usize, m: usize, l: usize, history_pool: &[Vec<
                     return Some(Finding {
                         key: "depends-on-earlier-calls".into(),
                         what: format!("m={} l={}: hash_set({:?}) after earlier calls {:?} on the same instance differs from the first-call result", m, l, t, hl),
-                        case: json!({"kind": "history", "m": m, "l": l, "history": hl, "seq": t}),
+                        case: json!({"kind": "history", "hasher": H::label(), "m": m, "l": l, "history": hl, "seq": t}),
                     });
                 }
             }
@@ -339,9 +385,17 @@ pub fn run(ctx: &Ctx) -> i32 {
             for len in l..=max_len {
                 let alpha = if len <= 6 && !ctx.quick() { 5 } else { 4 };
                 configs += 1;
-                let f = check_config(alpha, len, m, l, &pool, &mut st);
+                let f = check_config::<FnvHasher>(alpha, len, m, l, &pool, &mut st);
                 for x in f {
                     ctx.violation(&x.key, &x.what, x.case);
+                }
+                // pass-through hasher with adjacent item hashes (pre-hashed data), shorter sequences
+                if len <= max_len - 1 {
+                    configs += 1;
+                    let f = check_config::<probminhash::nohasher::NoHashHasher>(4, len, m, l, &pool, &mut st);
+                    for x in f {
+                        ctx.violation(&format!("{}:nohash", x.key), &format!("[no-op hasher, item hashes 1,2,3,4] {}", x.what), x.case);
+                    }
                 }
             }
         }
@@ -367,7 +421,7 @@ pub fn run(ctx: &Ctx) -> i32 {
         "exhaustive": true,
         "evaluations": st.calls,
         "distinct_nontrivial": st.distinct_sigs,
-        "rule": "every sequence of length l..6 (8 thorough) over a 4-letter (5 for short lengths, thorough) alphabet, l in {1,2,3}, m in {1,2,4,16} (+3,8,33), grouped by multiset: the set of selected (element,occurrence) pairs per position (hook H4) must be identical across all permutations of a multiset and equal the l pairs with the smallest race value (race tables read from the real code on single-element runs); the signature value must be one injective function of the selected elements in sequence order; for l=1 the signature is permutation invariant; results do not depend on 1-2 earlier calls on the instance; distinct = distinct signatures",
+        "rule": "every sequence of length l..6 (8 thorough) over a 4-letter (5 for short lengths, thorough) alphabet, l in {1,2,3}, m in {1,2,4,16} (+3,8,33), with the Fnv hasher and with the no-op hasher on items whose hashes are the adjacent integers 1..4, grouped by multiset: the set of selected (element,occurrence) pairs per position (hook H4) must be identical across all permutations of a multiset and equal the l pairs with the smallest race value (race tables read from the real code on single-element runs); the signature value must be one injective function of the selected elements in sequence order; for l=1 the signature is permutation invariant; results do not depend on 1-2 earlier calls on the instance; distinct = distinct signatures",
         "configs": configs,
         "sequences": st.sequences,
         "multiset_groups": st.groups,
@@ -393,10 +447,15 @@ pub fn replay(_ctx: &Ctx, case: &Value) -> Result<(bool, String), String> {
     match case["kind"].as_str() {
         Some("pair") => {
             let (s1, s2) = (getseq(&case["seq1"]), getseq(&case["seq2"]));
-            let r1 = run_fresh(m, l, &s1)?;
-            let r2 = run_fresh(m, l, &s2)?;
+            let nohash = case["hasher"].as_str().map(|h| h.starts_with("NoHash")).unwrap_or(false);
             let elements: BTreeSet<u32> = s1.iter().cloned().collect();
-            let tables = race_tables(m, &elements.into_iter().collect::<Vec<_>>(), s1.len())?;
+            let els: Vec<u32> = elements.into_iter().collect();
+            let (r1, r2, tables) = if nohash {
+                type N = probminhash::nohasher::NoHashHasher;
+                (run_fresh_h::<N>(m, l, &s1)?, run_fresh_h::<N>(m, l, &s2)?, race_tables_h::<N>(m, &els, s1.len())?)
+            } else {
+                (run_fresh(m, l, &s1)?, run_fresh(m, l, &s2)?, race_tables(m, &els, s1.len())?)
+            };
             let occ = occurrences(&s1);
             let pairs: BTreeSet<Pair> = s1.iter().zip(occ.iter()).map(|(e, o)| (*e, *o)).collect();
             let mut not_smallest = false;
